@@ -74,9 +74,21 @@ func genC20(r *rand.Rand, t *Trace, thorough bool) {
 		for i := range vs {
 			orig[i] = cloneVec(vs[i])
 		}
-		cents, mapping := comet.KMeans(vs, k, d, maxIter)
+		// KMeansSubspace (the codebook trainer of PQ / IVFPQ) is k-means under squared Euclidean distance
+		sub := r.Intn(4) == 0
+		if sub {
+			mz = 1
+			t.Stat("kmeans.subspace_entry_point")
+		}
+		run := func() ([][]float32, []int) {
+			if sub {
+				return comet.KMeansSubspace(vs, k, maxIter)
+			}
+			return comet.KMeans(vs, k, d, maxIter)
+		}
+		cents, mapping := run()
 		changed := !vecsEqualBits(vs, orig)
-		cents2, mapping2 := comet.KMeans(vs, k, d, maxIter)
+		cents2, mapping2 := run()
 		nondet := !vecsEqualBits(cents, cents2) || len(mapping) != len(mapping2)
 		for i := range mapping {
 			if !nondet && mapping[i] != mapping2[i] {
